@@ -126,6 +126,13 @@ def generate(ctx):
         yield "dna", dict(s="".join("ACGT"[x] for x in _symbols(rng, L // 2, "random", 4)), kind="beyond-640-digits")
         yield "number_dna", dict(x=str(rng.randrange(4 ** (L // 2 - 1), 4 ** (L // 2))), L=L // 2, which="beyond-640-digits")
         yield "number_bits", dict(x=str(rng.randrange(2 ** (L - 1), 2 ** L)), L=L, which="beyond-640-digits")
+    for _ in range(ctx.pick(3, 12)):
+        # byte-typed bit arrays (numpy.unpackbits output) whose number of ones is a multiple of 256 (and of 128)
+        L = rng.choice([256, 300, 512, 520, 640])
+        ones = rng.choice([m for m in (128, 256, 384, 512) if m <= L])
+        bits = [1] * ones + [0] * (L - ones)
+        rng.shuffle(bits)
+        yield "bits", dict(bits=bits, kind="ones-multiple-of-128", container=rng.choice(["uint8", "uint8", "int8"]))
     for _ in range(ctx.pick(5, 30)):
         yield "via_library", dict(k=rng.choice([2, 3]), bits=[rng.randint(0, 1) for _ in range(rng.choice([8, 33, 64, 120]))])
     widths = WIDTHS + ctx.pick([300, 1000], [1000, 2000, 4096])
@@ -134,7 +141,7 @@ def generate(ctx):
         if L > 300 and rng.random() < ctx.pick(0.96, 0.85):
             L = rng.choice(WIDTHS)
         kind = rng.choice(["zeros", "ones", "leadzero", "single", "random", "random"])
-        yield "bits", dict(bits=_symbols(rng, L, kind, 2), kind=kind, container=rng.choice(["list", "list", "int64", "int8"]))
+        yield "bits", dict(bits=_symbols(rng, L, kind, 2), kind=kind, container=rng.choice(["list", "list", "int64", "int8", "uint8"]))
         Ld = L if L <= 300 else L // 2
         yield "dna", dict(s="".join("ACGT"[x] for x in _symbols(rng, Ld, kind, 4)), kind=kind)
         which = rng.choice(["zero", "one", "max", "random", "pow"])
@@ -320,7 +327,7 @@ def floors(agg, tier):
         out.append("repository tests ran %d contract evaluations" % agg["monitors"].get("contract-evaluations-inside-repo-tests", 0))
     c, m = agg["classes"], agg["monitors"]
     for name, need in (("number|integer path beyond 1400 nt", 50), ("bits|with progress output", 300), ("conversion repeated after its result was scrambled", 200), ("bits|limbs", 500), ("dna|limbs", 500),
-                       ("bits|beyond-640-digits", 3), ("dna|beyond-640-digits", 3)):
+                       ("bits|beyond-640-digits", 3), ("dna|beyond-640-digits", 3), ("bits|ones-multiple-of-128", 30), ("bits|container uint8", 500)):
         if c.get(name, 0) < need:
             out.append("%s observed %d < %d" % (name, c.get(name, 0), need))
     for fn in ("bit_to_number", "number_to_bit", "dna_to_number", "number_to_dna"):
